@@ -86,3 +86,42 @@ void h_composition(void){
   if (nf == 1) __CPROVER_assert((f0 == M_CONF_FWD && g_log[0] == M_CONF_INV) || (f0 == M_LIN_FWD && g_log[0] == M_LIN_INV), "C10 a single transform is undone by its own inverse");
   __CPROVER_assert(0, "VACUITY-CANARY");
 }
+
+//@ text3
+/* integrate() / getQuadratureWeights(): composition of the conformal correction (weights) and the linear scale.  Ghost: every entry records how often it was scaled and by what. */
+typedef int TypeOneDRule;
+#ifndef TSG_NPNT
+#define TSG_NPNT 3
+#endif
+typedef struct { size_t domain_transform_a_size, conformal_asin_power_size; int dims, outs, npoints; } TSGC;
+double g_scale; int g_nscaled; bool g_scaled_wrong; bool g_conf_applied, g_base_got_correction, g_base_called;
+int base_getNumDimensions(const TSGC *s){ return s->dims; }
+TypeOneDRule base_getRule(const TSGC *s){ return 0; }
+int base_getNumPoints(const TSGC *s){ return s->npoints; }
+int base_getNumOutputs(const TSGC *s){ return s->outs; }
+const double *g_corr;
+void mapConformalWeights(const TSGC *s, int nd, int np, double w[]){ __CPROVER_assert(nd == s->dims && np == s->npoints, "C10 the conformal weights are computed for all points of the grid"); if (s->conformal_asin_power_size != 0) { g_conf_applied = true; g_corr = w; } }
+void base_integrate(const TSGC *s, double q[], const double *correction){ g_base_called = true; g_base_got_correction = (correction != 0) && (correction == g_corr); for (int k = 0; k < 2; k++) if (k < s->outs) q[k] = nondet_double(); }
+void base_getQuadratureWeights(const TSGC *s, double *w){ g_base_called = true; for (int i = 0; i < TSG_NPNT; i++) if (i < s->npoints) w[i] = nondet_double(); }
+double getQuadratureScale(const TSGC *s, int nd, TypeOneDRule r){ __CPROVER_assert(s->domain_transform_a_size != 0 && nd == s->dims, "C10 the linear scale is computed only for a grid with a domain transform, for all its dimensions"); g_scale = nondet_double(); return g_scale; }
+double tsg_scaled(double v, double sc){ g_nscaled++; if (!TSG_SAME(sc, g_scale)) g_scaled_wrong = true; return nondet_double(); }
+
+//@ harness h_integrate
+void h_integrate(void){
+  TSGC s; s.dims = 2; s.outs = nondet_int(); s.npoints = nondet_int();
+  __CPROVER_assume(s.outs >= 0 && s.outs <= 2 && s.npoints >= 0 && s.npoints <= TSG_NPNT);
+  s.domain_transform_a_size = nondet_bool() ? 2 : 0; s.conformal_asin_power_size = nondet_bool() ? 2 : 0;
+  double q[TSG_NPNT];
+  g_nscaled = 0; g_scaled_wrong = false; g_conf_applied = false; g_base_got_correction = false; g_base_called = false; g_corr = 0;
+#if TSG_WHICH == 0
+  TSG_integrate(&s, q);
+  int n = s.outs;
+  __CPROVER_assert(g_base_called && (g_base_got_correction == (s.conformal_asin_power_size != 0)), "C10 integrate(): the family integrates with the conformal correction exactly when a conformal transform is set");
+#else
+  TSG_getQuadratureWeights(&s, q);
+  int n = s.npoints;
+  __CPROVER_assert(g_base_called && (g_conf_applied == (s.conformal_asin_power_size != 0)), "C10 getQuadratureWeights(): the conformal factor is applied exactly when a conformal transform is set");
+#endif
+  __CPROVER_assert(g_nscaled == (s.domain_transform_a_size != 0 ? n : 0) && !g_scaled_wrong, "C10 the quadrature scale of the linear transform multiplies every entry exactly once whenever a domain transform is set, with or without a conformal transform");
+  __CPROVER_assert(0, "VACUITY-CANARY");
+}
